@@ -414,11 +414,10 @@ fn sub_line_hdr(tier: Tier) -> Sub {
             ctx.outcome("linehdr:program-with-mid-sequence-set_address-left-to-line-programs");
             return;
         }
-        if df == 2 {
-            // the form of DW_AT_decl_file is the dominant trigger; do not multiply it by the kit
-            feats.insert(0, "decl_file:implicit_const");
-        } else if k != 0 && feats.is_empty() {
+        if k != 0 && feats.is_empty() {
             feats.push(kit);
+        } else if df == 2 && feats.is_empty() {
+            feats.push("decl_file:implicit_const");
         }
         let feat = feats.first().cloned().unwrap_or("").to_string();
         let decl = match df {
